@@ -1005,7 +1005,7 @@ class BIPBBMD(BIPSAP, Client, Server, RecurringTask, DebugContents):
             self.bbmdFDT.append( fdte )
 
         fdte.fdTTL = ttl
-        fdte.fdRemain = ttl + 5
+        fdte.fdRemain = min(ttl + 5, 65535)
 
         # return success
         return 0
@@ -1312,7 +1312,7 @@ class BIPNAT(BIPSAP, Client, Server, RecurringTask, DebugContents):
             self.bbmdFDT.append( fdte )
 
         fdte.fdTTL = ttl
-        fdte.fdRemain = ttl + 5
+        fdte.fdRemain = min(ttl + 5, 65535)
 
         # return success
         return 0
